@@ -133,6 +133,27 @@ def snap_node(n, light=False):
     s = {"name": n.name, "inputs": tuple(n.inputs), "outputs": tuple(n.outputs), "hash": n.definition_hash}
     s["defaults"] = {p: (n.get_default_for(p) if n.has_default_for(p) else "<none>") for p in n.inputs}
     s["params"] = n.map_inputs_to_params({p: p for p in n.inputs})
+    f = getattr(n, "func", None)
+    if f is not None and not isinstance(n, GraphNode):
+        # independent of any twin: what the node says about each (possibly renamed) input must be what the
+        # function's own signature says about the parameter behind it
+        import inspect
+
+        try:
+            sp = inspect.signature(f).parameters
+        except (TypeError, ValueError):
+            sp = {}
+        bad = []
+        back = n.map_inputs_to_params({p: p for p in n.inputs})  # original parameter -> the external name it is fed from
+        for orig, ext in back.items():
+            if orig not in sp:
+                continue
+            has = sp[orig].default is not inspect.Parameter.empty
+            if n.has_default_for(ext) != has:
+                bad.append((ext, orig, "has_default_for", n.has_default_for(ext), has))
+            elif has and n.get_default_for(ext) != sp[orig].default:
+                bad.append((ext, orig, "default", repr(n.get_default_for(ext)), repr(sp[orig].default)))
+        s["_signature_mismatch"] = bad
     if isinstance(n, GraphNode):
         s["map"] = n.map_config
         s["outmap"] = n.map_outputs_from_original({o: o for o in n.graph.outputs})
@@ -174,6 +195,9 @@ def compare(ctx, spec, live, case, when):
         ctx.inconc(f"twin replay failed: {e!r}")
         return True
     got = snap(live)
+    if got.get("_signature_mismatch"):
+        ctx.violation("C07:derived-node-stale", f"{when}: node derived by {fmt(live.recipe)} reports {got['_signature_mismatch'][:2]} (external name, parameter, what, node says, signature says): state of the object it was derived from leaked into it", case)
+        return False
     tw = Live(twin, live.recipe, live.kind)
     exp = snap(tw)
     if got != exp:
@@ -208,6 +232,17 @@ def history(ctx, i):
         r = gen.nest_once(rng, spec, "grp", allow_rename=False)
         if r and rng.random() < 0.6:
             spec = r[1]
+    if not cyc and rng.random() < 0.6:
+        # a gate (not a plain function node) whose input has a SIGNATURE DEFAULT: node kinds with their own class
+        # hierarchy must follow renames of defaulted parameters exactly like function nodes do
+        kind = rng.choice(["ifelse", "route"])
+        dg = {"k": kind, "name": "dg", "params": [{"n": "dgk", "d": rng.randint(0, 1)}], "key": "dgk", "open": False}
+        if kind == "ifelse":
+            dg.update({"t": "dga", "f": "dgb", "table": [True, False]})
+        else:
+            dg.update({"targets": ["dga", "dgb"], "table": ["dga", "dgb"]})
+        spec["nodes"] += [dg, {"k": "fn", "name": "dga", "params": [{"n": "dgx", "d": "dx"}], "outs": ["dga_out"]}, {"k": "fn", "name": "dgb", "params": [{"n": "dgx", "d": "dx"}], "outs": ["dgb_out"]}]
+        ctx.obs["programs_with_defaulted_gate"] += 1
     root = build_program(spec).graph
     lives = [Live(root, [], "graph")]
     ops_done = []
